@@ -32,6 +32,45 @@ def match_reader(got, want):
     return True
 
 
+def spec_parse(items, L):
+    """layout the specification assigns to a payload of exactly L octets, or None when it is too short"""
+    seq = []
+    rem = [L]
+
+    def walk(items):
+        for it in items:
+            k = it["k"]
+            if k in ("int", "enum"):
+                if rem[0] < it["w"]:
+                    return False
+                rem[0] -= it["w"]
+                seq.append((k, it["w"], it["f"]))
+            elif k == "zero":
+                if rem[0] < it["n"]:
+                    return False
+                rem[0] -= it["n"]
+                seq.append(("zero", it["n"]))
+            elif k == "bytes":
+                if rem[0] < it["n"]:
+                    return False
+                rem[0] -= it["n"]
+                seq.append(("bytes", it["n"], it["f"]))
+            elif k == "rest":
+                if rem[0] < it.get("min", 1):
+                    return False
+                rem[0] = 0
+                seq.append(("rest", it["f"], bool(it.get("utf8"))))
+            elif k == "opt":
+                if rem[0] >= it["min_present"]:
+                    if not walk(it["items"]):
+                        return False
+        return True
+    return layout._merge_zero(seq) if walk(items) else None
+
+
+LENGTH_ERRS = ("IncompleteAVP", "AVPReadError")
+
+
 def run_config(chk, config):
     fx = chk.facts(config)
     a = Anchors(chk, fx)
@@ -66,6 +105,44 @@ def run_config(chk, config):
                   {"rule": "fields in specified order/width, reserved octets skipped, optional tails, remainder, UTF-8 where specified",
                    "decoder_layouts": got[:8], "spec_layouts": wants, "unmatched_spec": missing, "unspecified_decoder": extra[:4]},
                   {"obligation": "%s: accepting decoder layouts equal the specified ones" % vname, "layouts": got[:2]})
+        # exact per-length comparison for every payload length around the format's boundaries
+        mism = []
+        top = sp["min"] + 8
+        for L in range(0, top + 1):
+            want = spec_parse(sp["items"], L)
+            extra_c = [c_eq(L0, Lin.const(L))]
+            oks = []
+            len_rejects = []
+            for s2, v2 in rets:
+                if not layout.conj_feasible(eng, s2, extra_c):
+                    continue
+                vi2, p2 = result_parts(v2)
+                if vi2 == 0:
+                    oks.append(layout.canon_reader(eng, s2, layout.rtokens(eng, s2), p2))
+                else:
+                    consumed = Lin.const(0)
+                    for t in layout.rtokens(eng, s2):
+                        if t.get("ok", True):
+                            consumed = consumed + t["n"]
+                    nm = tables.variant_name(eng, p2)
+                    need = L
+                    if want is not None and not any(x[0] == "rest" for x in want):
+                        need = sum(x[1] for x in want)
+                    # a rejection after everything the format needs was read is about a value (code, UTF-8), not a length
+                    if nm in LENGTH_ERRS and not layout.conj_entails(eng, s2, extra_c, c_eq(consumed, Lin.const(need))):
+                        len_rejects.append(nm)
+            if want is None:
+                if oks:
+                    mism.append("length %d: accepted as %s, the format needs more octets" % (L, oks[0]))
+            else:
+                if not oks or not all(match_reader(g, want) for g in oks):
+                    mism.append("length %d: decoded as %s, specified %s" % (L, oks[:1] or "rejected", want))
+                elif len_rejects:
+                    mism.append("length %d: can be rejected for its length (%s) although the format fits" % (L, len_rejects[0]))
+        chk.oblig(not mism, "by-length | %s::try_read" % vname,
+                  "%s: accept/reject or layout differs from the format for some payload length: %s" % (vname, mism[:2]),
+                  {"rule": "for every payload length L: accepted iff the format fits, with the layout the format assigns to L", "mismatches": mism[:6]},
+                  {"obligation": "%s: exact agreement with the format for payload lengths 0..%d" % (vname, top)})
         chk.oblig(lo_min == sp["min"], "min-length | %s::try_read" % vname,
                   "%s accepts payloads from %s octets, the format needs at least %s" % (vname, lo_min, sp["min"]),
                   {"rule": "least accepted payload length == specified minimum", "got": lo_min, "spec": sp["min"]},
